@@ -297,6 +297,8 @@ pub struct Emitter<'p> {
     in_multiclass: usize,
     cur_probe: Option<usize>,
     targ_has_default: Vec<DeclId>,
+    /// multiclass name -> (parameters, parameters without default)
+    mc_params: BTreeMap<String, (usize, usize)>,
     /// names declared more than once (a forward declaration and its definition): which of the
     /// declarations a use of the NAME denotes is left open; members are judged normally
     redeclared: Vec<String>,
@@ -328,6 +330,7 @@ pub fn emit_with(prog: &Program, trivia: bool) -> Emitted {
         in_multiclass: 0,
         cur_probe: None,
         targ_has_default: Vec::new(),
+        mc_params: BTreeMap::new(),
         redeclared: Vec::new(),
         trivia,
     };
@@ -619,18 +622,26 @@ impl<'p> Emitter<'p> {
         self.record_arg_list(class, name_range, if named.is_empty() { last_arg } else { None }, close, true, args.len(), named.len());
     }
 
-    fn mc_args(&mut self, args: &[E]) {
+    fn mc_args(&mut self, multiclass: &str, name_range: (usize, usize), args: &[E]) {
+        let (params, required) = self.mc_params.get(multiclass).copied().unwrap_or((0, 0));
         if args.is_empty() {
+            let at = self.pos();
+            self.out.arg_lists.push(ArgList { file: self.file, name_range, last_arg: None, insert_at: at, has_list: false, positional: 0, named: 0, params, required });
             return;
         }
         self.w("<");
+        let mut last_arg = None;
         for (i, a) in args.iter().enumerate() {
+            let sep_start = self.pos();
             if i > 0 {
                 self.w(", ");
             }
             self.expr(a);
+            last_arg = Some((sep_start, self.pos()));
         }
+        let close = self.pos();
         self.w(">");
+        self.out.arg_lists.push(ArgList { file: self.file, name_range, last_arg, insert_at: close, has_list: true, positional: args.len(), named: 0, params, required });
     }
 
     fn bang_var(&mut self, name: &str) -> DeclId {
@@ -1151,11 +1162,13 @@ impl<'p> Emitter<'p> {
                 self.multiclasses.insert(name.clone(), d);
                 self.scopes.push(Scope::Multiclass { targs: vec![], vars: vec![] });
                 let children: Vec<Sym> = self.targs(targs, name, None).into_iter().map(|(_, _, s)| s).collect();
+                self.mc_params.insert(name.clone(), (targs.len(), targs.iter().filter(|t| t.default.is_none()).count()));
                 for (i, p) in parents.iter().enumerate() {
                     self.w(if i == 0 { " : " } else { ", " });
                     let target = self.multiclasses.get(&p.name).copied().filter(|t| *t != d);
+                    let ns = self.pos();
                     self.use_as(&p.name, target.or(Some(d).filter(|_| p.name == *name)), true, Role::MulticlassRef);
-                    self.mc_args(&p.args);
+                    self.mc_args(&p.name, (ns, ns + p.name.len()), &p.args);
                 }
                 self.w(" ");
                 self.in_multiclass += 1;
@@ -1176,8 +1189,9 @@ impl<'p> Emitter<'p> {
                 for (i, p) in parents.iter().enumerate() {
                     self.w(if i == 0 { " : " } else { ", " });
                     let target = self.multiclasses.get(&p.name).copied();
+                    let ns = self.pos();
                     self.use_as(&p.name, target, true, Role::MulticlassRef);
-                    self.mc_args(&p.args);
+                    self.mc_args(&p.name, (ns, ns + p.name.len()), &p.args);
                 }
                 self.semi();
             }
